@@ -86,7 +86,7 @@ unit = {
     "desc": "basis-inverse and multiply queries of SoPlexBase<R> (soplex.hpp), ROW-representation branches, at R = ledger: complement "
             "construction from bind = getBasisInd(), scaling shifts around the opaque solve / dot-product kernels",
     "rmode": base["rmode"],
-    "defines": {"CAP": "8"}, "defines_thorough": {"CAP": "8"}, "defines_small": {"CAP": "3"},
+    "defines": {"CAP": "8"}, "defines_thorough": {"CAP": "16"}, "defines_small": {"CAP": "3"},
     "flags": ["--bounds-check", "--pointer-check", "--signed-overflow-check"],
     "timeout_s": 240,
     "extracts": base["extracts"],
@@ -103,7 +103,7 @@ unit = {
         {"file": "src/soplex/dsvectorbase.h", "regex": r"void add\(int i, const R& v\)\s*\{\s*makeMem\(1\);\s*SVectorBase<R>::add\(i, v\);", "why": "DSVectorBase::add(i, v) appends one nonzero"},
         {"file": "src/soplex.hpp", "regex": r"void SoPlexBase<R>::getBasisInd\(int\* bind\) const", "why": "getBasisInd stub (real function under contract in units/basis_soplex)"},
     ],
-    "trusted": [t.replace("(8 quick / 32 thorough)", "(8 in both tiers: with CAP=16 cbmc 6.11 aborts in boolbv_get while reporting a REFUTED mutant of getBasisInverseRowReal_row)") for t in base["trusted"] if not t.startswith("the code under contract") and not t.startswith("_ensureRealLPLoaded") and not t.startswith("hasBasis") and not t.startswith("SSVectorBase::setup")] + [
+    "trusted": [t.replace("(8 quick / 32 thorough)", "(8 quick / 16 thorough)") for t in base["trusted"] if not t.startswith("the code under contract") and not t.startswith("_ensureRealLPLoaded") and not t.startswith("hasBasis") and not t.startswith("SSVectorBase::setup")] + [
         "the code under contract is the ROW-branch region of each function; the host appends the function's last statement `return true;` (conformance-checked); the common prologue is under contract in units/basisinv; 0 <= r < numRows() is a precondition (established by the prologue)",
         "getBasisInd(bind) is a recorded stub (the real function is under contract for C04, units/basis_soplex): bind is a caller-supplied array with arbitrary contents; its type invariant (entries name existing rows/columns) is required at the position read; spx_alloc/spx_free hand out / take back that array",
         "sparse vectors (units/basisinv/c05_row_sparse.h): values/indices arrays + provenance (unit vector / LP row / LP column / unscaled LP column + index, negated flag); whole-vector copies, memset and VectorBase = sparse vector are modelled at the ghost positions (other cells arbitrary); rowVector(i) hands out one arbitrary sparse vector for every i and records i; colVector(i)/getColVectorUnscaled(i, col) carry provenance only",
